@@ -949,7 +949,17 @@ def c07_expected(sess):
     labels = expect.label_index(model)
 
     def fname(fid):
-        return model.funcs.get(fid, {}).get("name")
+        f = model.funcs.get(fid, {})
+        if not f.get("nameless"):
+            return f.get("name")
+        # a function without a functionNames entry is called after the
+        # symbols on its entry blocks (labels may have slid there since)
+        names = sorted({t.name for _, u in model.units() for t in u.toks if t.kind == "label" and t.att is not None and t.att.func == fid and t.att.is_entry})
+        if not names:
+            return "<unknown>"
+        if len(names) == 1:
+            return names[0]
+        raise core.Rejected("the display name of a stripped function with several symbols on its entry blocks depends on set order")
 
     def pattern_match(fid, names):
         for n in names:
